@@ -21,6 +21,9 @@ type Node struct {
 	Out  int    `json:"out"`
 	Pre  int    `json:"pre"`  // type of the state pre-handler, -1 = none
 	Post int    `json:"post"` // type of the state post-handler, -1 = none
+	// Keyed: the node is a lambda [any > string] added with WithInputKey("k") and WithOutputKey("o"): towards the
+	// graph it takes and returns map[string]any (In = Out = map in the model)
+	Keyed bool `json:"keyed,omitempty"`
 }
 
 // Call is one Add* call. Op "N" = add node A; "E" = AddEdge(A, B); "B" = AddBranch(A, cond[Cond], Targets).
@@ -56,7 +59,9 @@ type Program struct {
 
 func (n Node) String() string {
 	s := n.Name
-	if n.Kind == "L" {
+	if n.Keyed {
+		s += "[any>string,inputKey+outputKey]"
+	} else if n.Kind == "L" {
 		s += "[" + typeName[n.In] + ">" + typeName[n.Out] + "]"
 	} else {
 		s += "[pass]"
@@ -238,14 +243,19 @@ func (p *Program) forEachOrder(f func(order []int) bool) {
 // ---------------------------------------------------------------------------------------------------
 // stage programs -> graph form
 
-func lam(name string, in, out int) *Node { return &Node{Name: name, Kind: "L", In: in, Out: out, Pre: -1, Post: -1} }
-func pass(name string) *Node             { return &Node{Name: name, Kind: "P", Pre: -1, Post: -1} }
+func lam(name string, in, out int) *Node {
+	return &Node{Name: name, Kind: "L", In: in, Out: out, Pre: -1, Post: -1}
+}
+func pass(name string) *Node { return &Node{Name: name, Kind: "P", Pre: -1, Post: -1} }
+func keyed(name string) *Node {
+	return &Node{Name: name, Kind: "L", In: tMap, Out: tMap, Pre: -1, Post: -1, Keyed: true}
+}
 
-func sP(n *Node) Stage                     { return Stage{Kind: "P", Node: n} }
-func sL(n *Node) Stage                     { return Stage{Kind: "L", Node: n} }
-func sB(cond int, arms ...*Node) Stage     { return Stage{Kind: "B", Cond: cond, Arms: arms} }
-func withPre(n *Node, t int) *Node         { n.Pre = t; return n }
-func withPost(n *Node, t int) *Node        { n.Post = t; return n }
+func sP(n *Node) Stage                 { return Stage{Kind: "P", Node: n} }
+func sL(n *Node) Stage                 { return Stage{Kind: "L", Node: n} }
+func sB(cond int, arms ...*Node) Stage { return Stage{Kind: "B", Cond: cond, Arms: arms} }
+func withPre(n *Node, t int) *Node     { n.Pre = t; return n }
+func withPost(n *Node, t int) *Node    { n.Post = t; return n }
 func passes(k int, first int) (st []Stage) { // k pass-through stages named p<first>..
 	for i := 0; i < k; i++ {
 		st = append(st, sP(pass(fmt.Sprintf("p%d", first+i))))
@@ -566,6 +576,18 @@ func enumerate(quick bool, yield func(p *Program)) {
 				emit(fromCalls("start-and-detour-into-pass", x, tAny, []*Node{pass("p1"), lam("a", x, y), lam("b", t, tString)},
 					[]Call{branch(START, x, "p1", "a"), edge("a", "p1"), edge("p1", "b"), edge("b", END)})[:1])
 			}
+		}
+	}
+	// G5  a node with an input key AND an output key (map towards the graph, any > string inside) next to an
+	//     interface-typed detour, both into a pass-through: START(map) -> branch cond[map] -> {k keyed, x[map>Y]};
+	//     k -> p1; x -> p1; p1 -> s[T>string] -> END(any)
+	for _, y := range U {
+		for _, t := range U {
+			if quick && !((t == tMap || t == tAny) && (y == tAny || y == tMap || y == tString)) {
+				continue
+			}
+			emit(fromCalls("keyed-and-detour-into-pass", tMap, tAny, []*Node{keyed("k"), pass("p1"), lam("x", tMap, y), lam("s", t, tString)},
+				[]Call{branch(START, tMap, "k", "x"), edge("k", "p1"), edge("x", "p1"), edge("p1", "s"), edge("s", END)})[:1])
 		}
 	}
 	if quick {
